@@ -71,6 +71,7 @@ func TestRegressRefusedEdgeWriteNotRebroadcast(t *testing.T) {
 	defer in.Close()
 	h := harness{t, in}
 	h.refused("inst", "root", data.Points{{Type: data.PointTypeTombstone, Value: 1, Time: at(1)}}, nil)
+	h.refused("inst", "root", data.Points{{Type: "description", Text: "d", Time: at(1)}, {Type: data.PointTypeTombstone, Key: "0", Value: 1, Time: at(1)}}, nil)
 	h.refused("n9", "inst", data.Points{{Type: "role", Text: "x", Time: at(2)}}, nil)
 	h.refused("n9", "n9", edge("t", 3), nil)
 }
